@@ -149,10 +149,18 @@ func obsOf(r *http.Request) *obs {
 	return &obs{}
 }
 
+// recordRun notes that a handler body runs, with the token found through
+// api.GetAPIRequest(r).
 func recordRun(r *http.Request) {
+	recordRunAR(r, api.GetAPIRequest(r))
+}
+
+// recordRunAR is for endpoint functions, which are handed the *api.Request
+// (its embedded http.Request is the one from before the context was attached).
+func recordRunAR(r *http.Request, ar *api.Request) {
 	o := obsOf(r)
 	var seen *tok
-	if ar := api.GetAPIRequest(r); ar != nil && ar.AuthToken != nil {
+	if ar != nil && ar.AuthToken != nil {
 		seen = &tok{int(ar.AuthToken.Read), int(ar.AuthToken.Write)}
 	}
 	o.mu.Lock()
@@ -294,22 +302,22 @@ func registerHarnessEndpoints() {
 				switch typ {
 				case "action":
 					e.ActionFunc = func(ar *api.Request) (string, error) {
-						recordRun(ar.Request)
+						recordRunAR(ar.Request, ar)
 						return "ran", nil
 					}
 				case "data":
 					e.DataFunc = func(ar *api.Request) ([]byte, error) {
-						recordRun(ar.Request)
+						recordRunAR(ar.Request, ar)
 						return []byte("ran"), nil
 					}
 				case "struct":
 					e.StructFunc = func(ar *api.Request) (interface{}, error) {
-						recordRun(ar.Request)
+						recordRunAR(ar.Request, ar)
 						return map[string]string{"msg": "ran"}, nil
 					}
 				case "record":
 					e.RecordFunc = func(ar *api.Request) (record.Record, error) {
-						recordRun(ar.Request)
+						recordRunAR(ar.Request, ar)
 						r := &epRecord{Msg: "ran"}
 						r.SetKey("verif:c12/record")
 						r.UpdateMeta()
